@@ -109,13 +109,16 @@ def make_instance(rng, nind=1, trios=(), max_reads=6, max_cols=6, quals=QUALS, p
 
 
 def make_profile_instance(rng, nind=1, trios=(), min_cols=9, max_cols=20, max_reads=12, levels=(0, 1, 2, 3, 4),
-                          quals=QUALS, prior_mode=None, recomb_choices=(0, 1, 3, 10, 20, 30)):
+                          quals=QUALS, prior_mode=None, recomb_choices=(0, 1, 3, 10, 20, 30), nice_above=12):
     """Long read matrices with a NON-uniform coverage profile: the per-column target coverage is piecewise
     constant with short segments (1-3 columns) whose levels are drawn from `levels` (dips and peaks next to each
     other), reads of varying length are laid out greedily to follow it (a read ends where the target drops), some
     columns stay uncovered.  All columns are kept (positions given explicitly), so that with >= 9 columns the sqrt
     check-pointing stores every 3rd/4th backward column and re-computes the others from wide and narrow ones."""
     n = rng.randint(min_cols, max_cols)
+    if n > nice_above:
+        # long matrices: decimal error probabilities / priors keep the exact rationals of the model small
+        quals, prior_mode, recomb_choices = [10, 20, 30, 0, 10, 20], "nice", (0, 10, 20, 30)
     target = []
     while len(target) < n:
         lv = rng.choice(levels)
